@@ -6,6 +6,7 @@ import XV.Drv.Sandbox
 import XV.Drv.SpinLock
 import XV.Drv.GovToken
 import XV.Drv.Acl
+import XV.Drv.EncMain
 /-! line-protocol model driver: `xvdriver <engine> < ops.txt > model.out` -/
 def main (args : List String) : IO UInt32 := do
   match args with
@@ -17,4 +18,5 @@ def main (args : List String) : IO UInt32 := do
   | ["lock"] => XV.Drv.SpinLock.run; return 0
   | ["gov"] => XV.Drv.GovToken.run; return 0
   | ["acl"] => XV.Drv.Acl.run; return 0
+  | ["enc"] => XV.Drv.EncMain.run; return 0
   | _ => IO.eprintln "usage: xvdriver <engine>"; return 2
